@@ -103,6 +103,20 @@ def parse_args(message: str, fn):
         return None
     try:
         node = ast.parse(f"_f({txt})", mode="eval").body
+        env: dict = {}
+
+        class _Sub(ast.NodeTransformer):  # CrossHair prints aliased arguments as  f(v1:=b'..', v1)
+            def visit_NamedExpr(self, n):  # noqa: N802
+                val = self.visit(n.value)
+                env[n.target.id] = val
+                return val
+
+            def visit_Name(self, n):  # noqa: N802
+                if n.id in env:
+                    return env[n.id]
+                return n
+
+        node = _Sub().visit(node)
         args = [ast.literal_eval(a) for a in node.args]
         kwargs = {k.arg: ast.literal_eval(k.value) for k in node.keywords}
     except Exception:
@@ -167,7 +181,7 @@ def run_task(task):
         ok = tw.get("status") == "refuted" and "twin-reached" in tw.get("message", "")
         out["twin"] = {"reached": ok, "args": tw.get("args"), "wall_s": tw.get("wall_s"), "paths": tw.get("paths"),
                        "solver_checks": tw.get("solver_checks"), "solver_s": tw.get("solver_s"),
-                       "detail": None if ok else (tw.get("message") or tw.get("detail") or tw.get("status"))}
+                       "detail": None if (ok and tw.get("args")) else (tw.get("message") or tw.get("detail") or tw.get("status"))}
     return out
 
 
